@@ -66,3 +66,4 @@ static inline int post_verif_transpose_at(fb6_t src_data, sv4_t src_shape, sv4_t
     }
   return q < 6UL && FEQ(ret.value, SV_AT(src_data, q));
 }
+
